@@ -25,8 +25,10 @@ def run(ctx):
     if not ctx.quick:
         c2 = dict(consts, MaxOps=3, AuthMode='"few"', HdrMode='"few"')
         hf.run_mc(ctx, "MC_interleavings", c2, INV, PROPS, timeout=3000)
-    n = 110 if ctx.quick else 1200
-    ev = 30 if ctx.quick else 45
+        c3 = dict(consts, MaxOps=2)
+        hf.run_mc(ctx, "MC_classes_depth2", c3, INV, PROPS, timeout=3000)
+    n = 60 if ctx.quick else 600
+    ev = 24 if ctx.quick else 45
     traces = ctx.impl("harness/http_driver.py", ["--mode", "authz", "--n", n, "--events", ev])
     nreq = 0
     for tr in traces:
